@@ -705,6 +705,18 @@ fn arc_box(c: &P2, r: f64, a0: f64, sweep: f64) -> Verdict {
     for k in 0..4 {
         ensure!((exp[k] - got[k]).abs() <= tol, "C11/arc_aabb/not_tight", "{} of the box is {:e} but the arc's extreme is {:e} (centre {:?}, r={r:e}, start {a0:e}, sweep {sweep:e})", names[k], got[k], exp[k], c0);
     }
+    // (3) length = r |sweep| for every sweep up to a full turn either way, and the three ways of addressing a point agree
+    ensure!((arc.length() - r * sweep.abs()).abs() <= 1e-12 * r * (1.0 + sweep.abs()), "C11/arc/length", "length {:e} of an arc of radius {r:e} and sweep {sweep:e}, expected {:e}", arc.length(), r * sweep.abs());
+    if sweep.abs() > 1e-6 {
+        for f in [0.0, 0.3, 0.75, 1.0] {
+            let x = arc.point_at_fraction(f);
+            let y = arc.point_at_length(f * r * sweep.abs());
+            let th = a0 + sweep * f;
+            let want = c0 + Vector2::new(th.cos(), th.sin()) * r;
+            ensure!(x.x.is_finite() && x.y.is_finite() && y.x.is_finite() && y.y.is_finite(), "C11/arc/point_non_finite", "non-finite arc point at fraction {f} (sweep {sweep:e})");
+            ensure!((x - want).norm() <= 1e-9 * scale * (1.0 + a0.abs()) && (y - want).norm() <= 1e-9 * scale * (1.0 + a0.abs()), "C11/arc/point_at_agree", "at fraction {f}: point_at_fraction {:?}, point_at_length {:?}, expected {:?} (start {a0:e}, sweep {sweep:e})", x, y, want);
+        }
+    }
     if c0.coords.norm() > 1e-6 {
         cx.nontrivial();
     }
